@@ -471,6 +471,9 @@ long long c_delineate_flowpathlengths_in_catchment(long long nrows,
     long long diff;
     double squaredist, length;
 
+    if(nrows < 1 || ncols < 1)
+        return CATCHMENT_ERROR + __LINE__;
+
     /* Loop through all cells in catchment area */
     for(i=0; i<nval; i++)
     {
@@ -496,8 +499,11 @@ long long c_delineate_flowpathlengths_in_catchment(long long nrows,
                 break;
 
             /* Compute distance between up and down cell */
+            /* A difference of one cell is a horizontal step only within
+             * a row (it is a diagonal step on a grid of two columns) */
             diff = abs(*idxcell_down - *idxcell_up);
-            squaredist = diff == 1 || diff == ncols ? 1 : 2;
+            squaredist = diff == ncols || (diff == 1 &&
+                *idxcell_down / ncols == *idxcell_up / ncols) ? 1 : 2;
 
             /* Iterate */
             *idxcell_up = *idxcell_down;
@@ -510,8 +516,11 @@ long long c_delineate_flowpathlengths_in_catchment(long long nrows,
         if(ipath < nval && *idxcell_down >= 0)
         {
             /* Compute distance between up and down cell */
+            /* A difference of one cell is a horizontal step only within
+             * a row (it is a diagonal step on a grid of two columns) */
             diff = abs(*idxcell_down - *idxcell_up);
-            squaredist = diff == 1 || diff == ncols ? 1 : 2;
+            squaredist = diff == ncols || (diff == 1 &&
+                *idxcell_down / ncols == *idxcell_up / ncols) ? 1 : 2;
             length += sqrt(squaredist);
         }
 
